@@ -144,7 +144,15 @@ def simulate(p, n, dtype):
             break
     e_end = err()
     trace.append(e_end)
-    return {"err_end": e_end, "err_max": float(np.nanmax(trace)) if np.all(np.isfinite(trace)) else float("inf"), "steps": steps,
+    verr = 0.0
+    if p["case"] == "lamb_oseen":
+        # velocity recovered through the unbounded Poisson solve vs the analytic swirl + free stream, on the central half box
+        c = c0 + U * (float(sim.time) - t0)
+        uex = _lo_velocity(pos, c, nu, p["gamma"], float(sim.time))
+        box = (slice(n // 4, 3 * n // 4),) * 2
+        du = np.asarray(sim.velocity_field, np.float64) - U.reshape(2, 1, 1) - uex
+        verr = float(np.linalg.norm(du[(slice(None),) + box]) / np.linalg.norm(uex[(slice(None),) + box]))
+    return {"verr_end": verr, "err_end": e_end, "err_max": float(np.nanmax(trace)) if np.all(np.isfinite(trace)) else float("inf"), "steps": steps,
             "regime_ok": regime_ok, "moved_cells": float(np.linalg.norm(U) * T / dx), "time_error": abs(float(sim.time) - t_end)}
 
 
@@ -214,6 +222,11 @@ def run_shard(sh, rec):
         rec.stat(f"err_over_bound_{path}", r["err_max"] / b)
         if not (r["err_max"] <= b):
             rec.violation(f"{case}:error>calibrated-bound:path{path}", f"n={n} err={r['err_max']:.3e} bound={b:.3e} {label}", {"p": p, "label": label})
+        if case == "lamb_oseen":
+            vb = cb["vbound"][str(n)]
+            rec.stat(f"velocity_err_over_bound_{path}", r["verr_end"] / vb)
+            if not (r["verr_end"] <= vb):
+                rec.violation(f"{case}:velocity-error>calibrated-bound:path{path}", f"n={n} verr={r['verr_end']:.3e} bound={vb:.3e} {label}", {"p": p, "label": label})
         if r["time_error"] > 1e-9:
             rec.violation(f"{case}:end-time-not-reached", f"n={n} |t-t_end|={r['time_error']:.3e}", {"p": p})
     if path == "B":
